@@ -29,7 +29,7 @@ def gen_seq(types, emb, maxlen=("5", "7")):
             "family": "moments", "types": types, "embeddings": emb}
 
 
-def gen_tree(types, emb, maxlen=("4", "5"), slots=("{1, 2, 3}", "{1, 2, 3, 4}")):
+def gen_tree(types, emb, maxlen=("4", "5"), slots=("{1, 2, 3}", "{1, 2, 3}")):
     return {"module": "Gen_Moments", "cfg": "Gen_Moments_tree.cfg", "overrides": {"MaxLen": maxlen, "Slots": slots},
             "family": "moments", "types": types, "embeddings": emb}
 
@@ -163,7 +163,7 @@ PROPS = {
         "rule": "every sequence over {-1,0,2} up to the length bound, cut into every composition of up to K contiguous chunks "
                 "(empty chunks included), merged in every order and direction of adjacent merges (all binary merge trees); "
                 "plus arbitrary add/merge/clone/fresh histories; ten concrete types; six embeddings",
-        "bounds": {"quick": "tree: L <= 4, K <= 3; hist: depth <= 4 over 2 slots", "thorough": "tree: L <= 5, K <= 4; hist: depth <= 5"},
+        "bounds": {"quick": "tree: L <= 4, K <= 3; hist: depth <= 4 over 2 slots", "thorough": "tree: L <= 5, K <= 3; hist: depth <= 5"},
         "assumptions": ["as C01"],
     },
     "C03": {
